@@ -1970,6 +1970,93 @@ class Interp:
                 outs.extend(self.exec_block(st.body if branch else st.orelse, q))
         return outs
 
+    # ---- match: the class / value / singleton / or / capture / wildcard patterns, read as the isinstance / == / is chain
+    def _match_test(self, pat, subj):
+        """(test expression or None for 'always', [(name, value expression)] captures); None when not modelled"""
+        def call(fn, *args):
+            return ast.Call(func=ast.Name(id=fn, ctx=ast.Load()), args=list(args), keywords=[])
+
+        if isinstance(pat, ast.MatchAs):
+            if pat.pattern is None:
+                return (None, [(pat.name, subj)] if pat.name else [])
+            inner = self._match_test(pat.pattern, subj)
+            if inner is None:
+                return None
+            return inner[0], inner[1] + ([(pat.name, subj)] if pat.name else [])
+        if isinstance(pat, ast.MatchClass) and not pat.patterns and not pat.kwd_patterns:
+            return call("isinstance", subj, pat.cls), []
+        if isinstance(pat, ast.MatchValue):
+            return ast.Compare(left=subj, ops=[ast.Eq()], comparators=[pat.value]), []
+        if isinstance(pat, ast.MatchSingleton):
+            return ast.Compare(left=subj, ops=[ast.Is()], comparators=[ast.Constant(value=pat.value)]), []
+        if isinstance(pat, ast.MatchOr):
+            parts = [self._match_test(x, subj) for x in pat.patterns]
+            if any(x is None or x[1] for x in parts):
+                return None
+            if any(x[0] is None for x in parts):
+                return None, []
+            # isinstance(x, A) or isinstance(x, B)  ==  isinstance(x, (A, B))
+            if all(isinstance(x[0], ast.Call) and dotted(x[0].func) == "isinstance" for x in parts):
+                return call("isinstance", subj, ast.Tuple(elts=[x[0].args[1] for x in parts], ctx=ast.Load())), []
+            return ast.BoolOp(op=ast.Or(), values=[x[0] for x in parts]), []
+        return None
+
+    def s_Match(self, st, path):
+        outs = []
+        for k, p, v in self.eval(st.subject, path):
+            if k == "raise":
+                outs.append(Outcome("raise", p, v))
+                continue
+            tmp = "__match_subject_%d" % st.lineno
+            p.env[("sym", tmp)] = v
+            subj = ast.copy_location(ast.Name(id=tmp, ctx=ast.Load()), st)
+            outs.extend(self._match_cases(st, list(st.cases), subj, p))
+        for o in outs:
+            o.path.env.pop(("sym", "__match_subject_%d" % st.lineno), None)
+        return outs
+
+    def _match_cases(self, st, cases, subj, path):
+        if not cases:
+            return [Outcome("normal", path)]
+        case, rest = cases[0], cases[1:]
+        mt = self._match_test(case.pattern, subj)
+        if mt is None:
+            raise Undecided("match pattern %s is not modelled" % ast.unparse(case.pattern), case.pattern)
+        test, captures = mt
+        outs = []
+
+        def matched(q):
+            for name, val in captures:
+                for _k, _q, vv in self.eval(val, q):
+                    q.env[("sym", name)] = vv
+            if case.guard is None:
+                outs.extend(self.exec_block(case.body, q))
+                return
+            for k2, q2, g in self.eval(case.guard, q):
+                if k2 == "raise":
+                    outs.append(Outcome("raise", q2, g))
+                    continue
+                for br, q3 in self.split(g, q2, case.guard):
+                    if br:
+                        outs.extend(self.exec_block(case.body, q3))
+                    else:
+                        outs.extend(self._match_cases(st, rest, subj, q3))
+
+        if test is None:
+            matched(path)
+            return outs
+        ast.fix_missing_locations(ast.copy_location(test, case.pattern))
+        for k, p, v in self.eval(test, path):
+            if k == "raise":
+                outs.append(Outcome("raise", p, v))
+                continue
+            for br, q in self.split(v, p, case.pattern):
+                if br:
+                    matched(q)
+                else:
+                    outs.extend(self._match_cases(st, rest, subj, q))
+        return outs
+
     def s_While(self, st, path):
         outs = []
         frontier = [path]
